@@ -42,6 +42,9 @@ CHECKS = {
  "C17": ("model_checking", "controlled cooperative scheduler over the real squashfs LRU and FileSystem code + stateless DFS over all interleavings up to a preemption bound; separate free-running -race pass",
          "Harness U drives the real lru (get on two or three colliding positions, a failing fetch, concurrent setMaxBlocks) with 2-3 threads for maxBlocks in {0,1,2}; harness I drives 2-3 readers (own handles, files sharing one fragment block and the metadata blocks, a multi-block file) on a real squashfs image with cache {0, 1 block, 2 blocks, default} and concurrent SetCacheSize. Every interleaving at scheduling points (each mutex Lock/Unlock, each fetch, each device ReadAt) with at most 2 (quick) / 3 (thorough) preemptions is executed; each must finish (deadlock = no enabled thread, livelock = step horizon), return the bytes of the requested position / the sequential file contents, and leave a well-formed cache. A -race build then runs the same reader bodies free-running (GOMAXPROCS 1/4/16, 2-32 goroutines).",
          "sync in filesystem/squashfs is redirected to the vsync shim by the build overlay; memory-model effects beyond happens-before are left to the race detector", "DESIGN.md §2.4, §3 C17"),
+ "C11": ("model_checking", "exhaustive enumeration of entry-point histories (no state merging) on fresh read-only opens of every filesystem/table image, write log and image digest as oracle",
+         "For each filesystem type (fat12/16/32, ext4, iso9660, squashfs) on a GPT partition, an MBR partition and the whole disk, and for each way of being read-only (file.New(readOnly), a backend whose Writable() fails, diskfs.Open(ReadOnly) and file.OpenFromPath(readOnly) on real files, plus writable opens for reading calls and for finalized ISO/squashfs, plus disks whose primary GPT is damaged), every history of up to 2 (thorough 3) of the ~30 public reading and mutating entry points is executed: every mutating call must return an error, no WriteAt may reach the device, the image hash must be unchanged, reading calls must succeed.",
+         "in-memory side effects of refused calls are not judged", "DESIGN.md §3 C11"),
  "C02": ("exploration", "bounded-exhaustive enumeration of table inputs executed on the real Write/Read + independent on-disk parser",
          "Every table of a spelled-out finite cross product (entries, indices, spellings, geometries, names, attributes, types, disk sizes, sector sizes, PMBR, prior content) is written by the real code and compared via gpt.Read/mbr.Read, partition.Read, Disk.GetPartition and an independent UEFI-spec parser; exhaustive over that domain, says nothing outside it.",
          "memdev in-memory device; gptck (independent parser written from the UEFI spec) defines on-disk validity", "DESIGN.md §3 C02"),
